@@ -51,6 +51,15 @@ class ExcAnalysis:
         self.pruned = []
         self.skip_callees = set()
 
+    def entry_helpers(self):
+        """module-level functions of the entry point's module that it calls (directly or through one
+        another): user text reaches their parameters, so conversions in them are user-text conversions"""
+        if getattr(self, '_entry_helpers', None) is None:
+            seen = self.prog.closure([self.entry], edge_filter=lambda e: e.kind == 'call' and e.callee.cls is None
+                                     and e.callee.module is self.entry.module)
+            self._entry_helpers = {q for q in seen if q != self.entry.qual}
+        return self._entry_helpers
+
     # ---------------------------------------------------------------- hierarchy
     def bases(self, name):
         out = [name]
@@ -99,7 +108,8 @@ class ExcAnalysis:
         if func.qual in self.local_sites:
             return self.local_sites[func.qual]
         out = []
-        is_entry = func is self.entry
+        # the entry point and the module-level helpers it hands the user's text to
+        is_entry = func is self.entry or func.qual in self.entry_helpers()
         fl = None
         for n in walk_no_nested(func.node):
             if isinstance(n, ast.Raise):
@@ -163,6 +173,14 @@ class ExcAnalysis:
         names = {x.id for x in ast.walk(v) if isinstance(x, ast.Name)}
         # follow one level of derivation: r = [float(x) for x in aparams[1:]]
         nid = fl.node_id_of(call)
+        # a tuple / list literal on every reaching definition: the length is fixed by the program
+        if isinstance(v, ast.Name) and v.id in fl.rd.names:
+            ds = fl.def_exprs(v.id, nid)
+            if ds and all(d[0] == 'assign' and isinstance(d[1], (ast.Tuple, ast.List)) and
+                          not any(isinstance(x, ast.Starred) for x in d[1].elts) for d in ds):
+                return True
+        if isinstance(v, (ast.Tuple, ast.List)) and not any(isinstance(x, ast.Starred) for x in v.elts):
+            return True
         src = set(names)
         for nm in list(names):
             if nm in fl.rd.names:
